@@ -270,7 +270,7 @@ def digit_expect(b, cfg, tr, bi, t):
     return None
 
 
-def run(ctx):
+def _run_rules(ctx):
     rep, f, cg = ctx.rep, ctx.facts, ctx.cg
     FACTS[0] = f
     rep.trust('nalgebra Matrix3 IndexMut panics iff row >= 3 or col >= 3; Enumerate over a slice iterator yields indices < len')
@@ -958,3 +958,29 @@ def _apps(v):
             if isinstance(x, tuple):
                 out.extend(_apps(x))
     return out
+
+
+def run(ctx):
+    _run_rules(ctx)
+    # R4: what a reader of the parsed map gets is the parsed matrix (Transform2 -> Matrix3 is not a transpose / re-composition)
+    from .C11 import conversion_is_the_matrix
+    conversion_is_the_matrix(ctx, 'R4')
+    # R5: "anything else is reported as an error": the caller that parses the group tables keeps every string and passes a
+    # parse error on (the WyckoffSite::new obligations of C10.R5)
+    from ..harness import Report
+    from .C10 import _carried
+    rep = ctx.rep
+    sub = type('Ctx', (), {})()
+    sub.__dict__.update(ctx.__dict__)
+    sub.rep = Report('C10', ctx.tier)
+    _carried(sub, main=False)
+    n = 0
+    for o in sub.rep.obligations:
+        if 'WyckoffSite::new' not in o['instance'] and 'each-string-parsed' not in o['instance']:
+            continue
+        n += 1
+        if o['ok']:
+            rep.ok('R5', 'C10:' + o['instance'], o['construct'], o['why'])
+        else:
+            rep.fail('R5', 'C10:' + o['instance'], o['construct'], o['why'], o['reason'])
+    rep.floor('R5', 'imported obligations on WyckoffSite::new (C10.R5)', n, 3)
